@@ -41,6 +41,15 @@ func (c *ctx) emit(format string, a ...interface{}) {
 	c.n++
 }
 
+// intent notes, on disk, what is about to be handed to the implementation ("H doing …"): when the process is brought down
+// by a fault in a goroutine of the implementation that nothing guards, the last such line is the input that did it
+func (c *ctx) intent(format string, a ...interface{}) {
+	c.out.WriteString("H doing ")
+	fmt.Fprintf(c.out, format, a...)
+	c.out.WriteByte('\n')
+	c.out.Flush()
+}
+
 func (c *ctx) count(key string) { c.stats[key]++ }
 
 // die ends the harness after writing out what has been observed so far (complete lines only are ever buffered)
